@@ -1,0 +1,71 @@
+//go:build verif
+// +build verif
+
+// Contracts for the par command, checked by /verif/gocv (build tag "verif").
+
+package main
+
+// RepairNeeded/RepairPossible of the count structs are pure observers.
+//@ iface-pure repairChecker
+
+// verify: 0 iff no repair needed, 1 iff needed and possible, 2 iff needed and not possible.
+//@ func processRepairChecker
+//@   props C20
+//@   skip-safety
+//@   ensures result == ite(repairChecker.RepairNeeded(), ite(repairChecker.RepairPossible(), 1, 2), 0)
+
+// usage errors exit 3; a plain usage request exits 0.
+//@ func printUsageAndExit
+//@   props C20
+//@   skip-safety
+//@   assert-call os.Exit #0 : err != nil && arg0 == 3
+//@   assert-call os.Exit #1 : err == nil && arg0 == 0
+//@   ensures false
+
+//@ func printCreateErrorAndExit
+//@   props C20
+//@   skip-safety
+//@   assert-call os.Exit : arg0 == exitCode
+//@   ensures false
+
+//@ func printVerifyErrorAndExit
+//@   props C20
+//@   skip-safety
+//@   assert-call os.Exit : arg0 == exitCode
+//@   ensures false
+
+//@ func printRepairErrorAndExit
+//@   props C20
+//@   skip-safety
+//@   assert-call os.Exit : arg0 == exitCode
+//@   ensures false
+
+// repair: 2 iff the error means "necessary but not possible"; 0 only without error; any other error 7.
+//@ func processRepairResultAndExit
+//@   props C20
+//@   skip-safety
+//@   note pure-param repairErrorMeansRepairNecessaryButNotPossible
+//@   assert-call os.Exit #0 : repairErrorMeansRepairNecessaryButNotPossible(err) && arg0 == 2
+//@   assert-call os.Exit #1 : !repairErrorMeansRepairNecessaryButNotPossible(err) && err == nil && arg0 == 0
+//@   assert-call printRepairErrorAndExit : !repairErrorMeansRepairNecessaryButNotPossible(err) && err != nil && arg1 == 7
+//@   ensures false
+
+// main: every exit of the command arms.
+//   create: 0 only after Create returned nil; errors exit non-zero, never 0/1/2/3.
+//   verify: the status is exactly processRepairChecker's; errors exit 7.
+//   repair: the result and error of Repair go unchanged to processRepairResultAndExit,
+//           for PAR1 and PAR2 alike; a direct repair-error exit is only taken for an
+//           unknown file extension.
+//@ func main
+//@   props C20
+//@   skip-safety
+//@   note allow-go the only goroutine is the SIGINT handler of the -cpuprofile option: it stops the profiler and exits 7
+//@   assert-call os.Exit #0 : lastcall("par1.Create") == nil && arg0 == 0
+//@   assert-call os.Exit #1 : lastcall("par2.Create") == nil && arg0 == 0
+//@   assert-call os.Exit #2 : lastcall("par1.Verify", 1) == nil && arg0 == lastcall("processRepairChecker")
+//@   assert-call os.Exit #3 : lastcall("par2.Verify", 1) == nil && arg0 == lastcall("processRepairChecker")
+//@   assert-call printCreateErrorAndExit : arg1 != 0 && arg1 != 1 && arg1 != 2 && arg1 != 3
+//@   assert-call printVerifyErrorAndExit : arg1 == 7
+//@   assert-call printRepairErrorAndExit : ext != ".par" && ext != ".par2" && arg1 == 7
+//@   assert-call processRepairResultAndExit #0 : arg2 == lastcall("par1.Repair", 1)
+//@   assert-call processRepairResultAndExit #1 : arg2 == lastcall("par2.Repair", 1)
